@@ -46,7 +46,12 @@ func (e *SpecEnv) with(vars map[string]Val) *SpecEnv {
 }
 
 func (e *SpecEnv) boolTerm(x ast.Expr) Term {
+	had := e.err != nil
 	v := e.eval(x)
+	if e.err != nil && !had {
+		// never emit a partially translated clause
+		return e.st.c.fresh("specerr", SBool)
+	}
 	if sc, ok := v.(Scalar); ok && sc.T.Sort == SBool {
 		return sc.T
 	}
@@ -150,7 +155,11 @@ func (e *SpecEnv) eval(x ast.Expr) Val {
 }
 
 func (e *SpecEnv) intTerm(x ast.Expr) Term {
+	had := e.err != nil
 	v := e.eval(x)
+	if e.err != nil && !had {
+		return e.st.c.fresh("specerr", SInt)
+	}
 	switch y := v.(type) {
 	case ConstV:
 		return bigLit(y.N)
@@ -367,7 +376,7 @@ func (s *State) mapSelect(m MapV, k Term) Val {
 }
 
 func (s *State) treeKSelect(tr SeqTreeK, k Term) Val {
-	if tr.Fields != nil {
+	if tr.Fields != nil || isStruct(tr.Typ) {
 		sv := StructV{Typ: tr.Typ}
 		for _, f := range tr.Fields {
 			sv.F = append(sv.F, s.treeKSelect(f, k))
@@ -444,14 +453,22 @@ func (e *SpecEnv) call(x *ast.CallExpr) Val {
 			return tv.E[iv.N.Int64()]
 		}
 		return v
-	case "at_loop":
+	case "at_loop", "before_loop":
 		// at_loop(k, e): value of e when the current iteration of loop k started (at its header)
+		// before_loop(k, e): value of e when loop k was entered
 		kv, ok := e.eval(x.Args[0]).(ConstV)
-		if !ok || e.loopSnap == nil || e.loopSnap[int(kv.N.Int64())] == nil {
-			return e.fail("at_loop: no snapshot for that loop here")
+		if !ok {
+			return e.fail("%s: loop ordinal must be a constant", name)
+		}
+		key := int(kv.N.Int64())
+		if name == "before_loop" {
+			key = -key
+		}
+		if e.loopSnap == nil || e.loopSnap[key] == nil {
+			return e.fail("%s: no snapshot for that loop here", name)
 		}
 		n := *e
-		n.st = e.loopSnap[int(kv.N.Int64())]
+		n.st = e.loopSnap[key]
 		// evaluate against the snapshot heap; fresh symbols still go to the live context
 		r := n.eval(x.Args[1])
 		if n.err != nil && e.err == nil {
@@ -802,12 +819,26 @@ func (e *SpecEnv) callPure(pf *PureFunc, x *ast.CallExpr) Val {
 			flat = append(flat, st.leaves(seq.Tree)...)
 			flat = append(flat, v.Off, v.Len)
 		case StructV:
-			for _, f := range v.F {
-				if sc, ok := f.(Scalar); ok {
-					flat = append(flat, sc.T)
-				} else {
-					return e.fail("%s: unsupported struct argument", pf.Name)
+			var fl func(sv StructV) bool
+			fl = func(sv StructV) bool {
+				for _, f := range sv.F {
+					switch fv := f.(type) {
+					case Scalar:
+						flat = append(flat, fv.T)
+					case StructV:
+						if !fl(fv) {
+							return false
+						}
+					case PtrV, IfaceV:
+						flat = append(flat, st.toLeaf(fv, SRef))
+					default:
+						return false
+					}
 				}
+				return true
+			}
+			if !fl(v) {
+				return e.fail("%s: unsupported struct argument", pf.Name)
 			}
 		case PtrV, IfaceV:
 			flat = append(flat, st.toLeaf(v, SRef))
